@@ -20,6 +20,18 @@ Theorem C02_median_robust :
 Proof. exact median_robust. Qed.
 Print Assumptions C02_median_robust.
 
+(* the moving median commutes with every order embedding of the sample type (positive scaling, translation, any strictly
+   increasing map): only the ORDER of the samples matters *)
+From Signalo Require Proofs.OrderEmbed.
+Theorem C02_median_equivariant :
+  forall (T : Type) (leb : T -> T -> bool), total_order leb ->
+  forall f : T -> T, (forall a b, leb (f a) (f b) = leb a b) ->
+  forall N, 0 < N -> forall hist x,
+  exists s s' t t' y, oexec (Median.filter leb) (init N) hist = Some s /\ Median.filter leb s x = Some (s', y) /\
+    oexec (Median.filter leb) (init N) (map f hist) = Some t /\ Median.filter leb t (f x) = Some (t', f y).
+Proof. exact Signalo.Proofs.OrderEmbed.median_equivariant. Qed.
+Print Assumptions C02_median_equivariant.
+
 (* No false alarm: the boolean reading of this property that the correspondence check evaluates on the IMPLEMENTATION's
    outputs (Check/C02.v, verdict bit 2) can never fail on outputs that agree with the model (bit 1 clear); side conditions,
    where there are any, are boolean and say which recorded observations the model comparison does not cover. *)
